@@ -9,3 +9,4 @@ import Carapace.Props.C10
 import Carapace.Props.C11
 import Carapace.Props.C12
 import Carapace.Props.C13
+import Carapace.Props.C17
